@@ -224,11 +224,11 @@ def impl_parallel(args, lines, shards=8, timeout=1800):
     return [x for r in res for x in r]
 
 
-def impl_isolating(args, lines, ncols, shards=16, timeout=600, single_timeout=20):
+def impl_isolating(args, lines, ncols, shards=16, timeout=600, single_timeout=20, crash_value=None):
     """like impl_parallel, but a case that crashes or hangs the process is isolated by bisection and
     answered with a JSON list of ncols "CRASH" strings; the other cases keep their real answers."""
     import concurrent.futures as cf
-    crash = json.dumps(["CRASH"] * ncols)
+    crash = crash_value if crash_value is not None else json.dumps(["CRASH"] * ncols)
 
     def solve(part, t):
         if not part:
